@@ -148,6 +148,11 @@ pub fn run(ctx: &Ctx, rep: &mut Report) {
         if (v as u64) % n != me {
             continue;
         }
+        // under Miri (about 1 ms per value) the assigned and boundary regions are run in full
+        // and the uniform middle is sampled; the native builds run every value
+        if ctx.is_miri() && v >= 300 && v < 65200 && v % 61 != 0 {
+            continue;
+        }
         let v = v as u16;
         roundtrip16!(rep, Type, "TYPE", v, "TYPE");
         roundtrip16!(rep, Qtype, "QTYPE", v, "TYPE");
